@@ -26,7 +26,7 @@ ASSUMPTIONS = [
     'tolerance |got-ref| <= 1e-9*ref + 1e-11*max|x-mean|^2-scale (1e-6 relative when the weight ratio exceeds 1e12)',
     'thread interleaving cannot change results (collectives are deterministic); what varies is the split',
 ]
-REQUIRED = {'ranks>=2': 0.5, 'has-single-sample-rank': 0.15, 'has-empty-rank': 0.15, 'weights:nonuniform': 0.3,
+REQUIRED = {'producer-reuses-buffer': 0.08, 'ranks>=2': 0.5, 'has-single-sample-rank': 0.15, 'has-empty-rank': 0.15, 'weights:nonuniform': 0.3,
             'part:pipeline': 0.1, 'part:variance': 0.4}
 
 
@@ -51,7 +51,10 @@ def _vcase(draw):
         w = draw(st.lists(st.sampled_from([0.5, 0.5, 2.0, 1e-300]), min_size=n, max_size=n))
     assign = draw(st.lists(S.ints(0, nr - 1), min_size=n, max_size=n))
     return {'shape': shape, 'vals': vals, 'w': w, 'wkind': wkind, 'nranks': nr, 'assign': assign,
-            'offset': draw(st.sampled_from([0.0, 1.0, 1e3, -1e6])), 'spread': draw(st.sampled_from([1.0, 1e-3, 1e4]))}
+            'offset': draw(st.sampled_from([0.0, 1.0, 1e3, -1e6])), 'spread': draw(st.sampled_from([1.0, 1e-3, 1e4])),
+            # every sample handed over in ONE work array that the producer overwrites in place (a model component with a
+            # preallocated buffer): the accumulator reads the value, it does not keep the array
+            'reuse_buffer': draw(S.pick([False, True, False, True]))}
 
 
 @st.composite
@@ -299,10 +302,22 @@ def check_variance(case, out):
     out.cls('weights:' + ('nonuniform' if nonuni else 'uniform'))
     out.cls('wkind:' + case['wkind'])
 
+    reuse = bool(case.get('reuse_buffer')) and shape != 'scalar'
+    if reuse:
+        out.cls('producer-reuses-buffer')
+
     def rank_body(r):
         ov = OnlineVariance()
+        buf = None
         for i in per[r]:
-            ov.update(xs[i], ws[i])
+            if reuse:
+                if buf is None:
+                    buf = np.array(xs[i], dtype=float, copy=True)
+                else:
+                    buf[...] = xs[i]
+                ov.update(buf, ws[i])
+            else:
+                ov.update(xs[i], ws[i])
         return ov.parallelVariance()
 
     try:
